@@ -211,6 +211,17 @@ struct Dumper {
       }
       o["captures"] = std::move(caps);
       o["capture_default"] = (int)L->getCaptureDefault();
+      if (auto *CO = L->getCallOperator()) {
+        Array lps;
+        for (auto *P : CO->parameters()) {
+          Object p;
+          p["name"] = P->getNameAsString();
+          p["t"] = ty(P->getType());
+          p["loc"] = loc(P->getLocation());
+          lps.push_back(std::move(p));
+        }
+        o["params"] = std::move(lps);
+      }
       ch.push_back(stmt(L->getBody()));
       o["c"] = std::move(ch);
       return o;
